@@ -156,6 +156,14 @@ let rec expr_of (s : sexp) : expr =
   | L [A "if"; c; a; b] -> ECond (expr_of c, expr_of a, expr_of b)
   | _ -> bad "expr"
 
+let tok_of = function
+  | L [A "n"; A num; A den; A i] ->
+      TNum ({ qnum = z_of_decimal num; qden = pos_of_z (z_of_decimal den) }, i = "1")
+  | L [A "id"; A s] -> TId (cs s)
+  | A "plus" -> TPlus | A "minus" -> TMinus | A "star" -> TStar | A "slash" -> TSlash
+  | A "pow" -> TPow | A "lp" -> TLP | A "rp" -> TRP | A "comma" -> TComma
+  | _ -> bad "token"
+
 let opt_of = function A "none" -> None | L [A "some"; A s] -> Some (cs s) | _ -> bad "option"
 let strs l = List.map (fun x -> cs (atom x)) (lst l)
 
@@ -463,6 +471,23 @@ let handle (req : sexp) : String.t =
         let cv = (match ceval fops float_of_z c_fmod rho e with CI z -> float_of_z z | CD d -> d) in
         jobj ["c", jfloat cv; "real", jfloat (eval fops rho e); "safe", jbool (c_safe e); "int", jbool (is_int e)] in
       jobj ["status", jstr "ok"; "values", jlist one (lst es)]
+  | L [A "parsetoks"; cases] ->
+      (* Parse.parse_expr on token lists, compared with the expression the caller obtained from Lark's tree
+         ("none" = Lark rejects); every parsed expression is also printed and parsed again (Parse.parse_print) *)
+      let one = function
+        | L [toks; exp] ->
+            let got = parse_expr (List.map tok_of (lst toks)) in
+            let verdict = (match exp, got with
+              | A "none", None -> "agree"
+              | A "none", Some _ -> "model-accepts"
+              | _, None -> "model-rejects"
+              | s, Some e -> if expr_eqb e (expr_of s) then "agree" else "differ") in
+            let rt = (match got with
+              | Some e -> (match parse_expr (print_expr e) with Some e2 -> expr_eqb e e2 | None -> false)
+              | None -> true) in
+            jobj ["verdict", jstr verdict; "roundtrip", jbool rt]
+        | _ -> bad "parsetoks case" in
+      jobj ["status", jstr "ok"; "results", jlist one (lst cases)]
   | L [A "symrhs"; A tries; inp] ->
       (* sympytools.rhs_matrix / jacobi_matrix of the mirror, evaluated at an input point *)
       let o = the_ode () in
